@@ -92,7 +92,8 @@ class Arr(Spec):
         d = z3.IntVal(d)
       dims.append(d)
       p.assume(d >= (1 if self.positive_dims else 0))
-    st = ArrState(z3.Const(name, T), Shape(self.rank, dims), self.kind, self.owner or ('param', name), tag=self.tag)
+    owner = self.owner if self.owner is not None else frozenset({('param', name)})
+    st = ArrState(z3.Const(name, T), Shape(self.rank, dims), self.kind, owner, tag=self.tag)
     return p.new_loc(st)
 
 
@@ -108,7 +109,7 @@ class ArrSym(Spec):
     p.assume(nd <= self.max_rank)
     k = z3.Int('k!dims')
     p.assume(z3.ForAll([k], dims(k) >= 0))
-    st = ArrState(z3.Const(name, T), Shape(nd, dims), self.kind, ('param', name))
+    st = ArrState(z3.Const(name, T), Shape(nd, dims), self.kind, frozenset({('param', name)}))
     return p.new_loc(st)
 
 
@@ -269,7 +270,7 @@ class Returns:
 
 class Contract:
   def __init__(self, target, cases, ensures=None, raises=None, returns=None, modifies=None, prop=None,
-               allow_other_exits=False, match=None, notes='', events=None, frame_attrs=None):
+               allow_other_exits=False, match=None, notes='', events=None, frame_attrs=None, consumes=()):
     self.target = target
     self.cases = cases
     self.ensures = ensures or {}       # name -> fn(a, result) -> z3 Bool   (None = clause does not apply in this case)
@@ -281,6 +282,7 @@ class Contract:
     self.notes = notes
     self.events = events or {}         # name -> fn(a, events) -> z3 Bool / bool   (ghost event clauses)
     self.frame_attrs = frame_attrs
+    self.consumes = tuple(consumes)   # array parameters the function writes in place: every caller must own them
 
   # ---- modular use at a call site -------------------------------------------------------------------
   def apply(self, ex, f, args, kwargs, p, node, bound):
@@ -300,6 +302,14 @@ class Contract:
       p.side.append(('pre', '%s/requires[%s]' % (self.target, case.name), list(p.pc), pre,
                      'call at line %s' % getattr(node, 'lineno', '?')))
       p.assume(pre)
+    for name in self.consumes:
+      v = env.get(name)
+      if isinstance(v, VArr):
+        st_ = p.store[v.loc]
+        p.side.append(('own', 'inplace-write-owned:arg-%s-of-%s@L%s' % (name, self.target, getattr(node, 'lineno', '?')), list(p.pc),
+                       z3.BoolVal(len(st_.owner) == 0),
+                       '%s writes its argument %s in place; the array passed may share memory with %s' % (self.target, name, sorted(st_.owner))))
+        p.store[v.loc] = st_.replace(term=fresh('w', T), version=st_.version + 1)
     out = []
     not_raised = []
     for exc, cond in self.raises.items():
@@ -450,7 +460,7 @@ def outcome_sig(q):
   return (oc[0],)
 
 
-def body_obligations(prog, contract, lib=None, contracts=None, config=None, loop_hook=None):
+def body_obligations(prog, contract, lib=None, contracts=None, config=None, loop_hook=None, only_case=None):
   """symbolically executes the REAL body of contract.target once per case and returns the list of
   obligations `body |= contract` plus bookkeeping (paths, notes, dropped constructs)."""
   fn = prog.func(contract.target)
@@ -459,6 +469,8 @@ def body_obligations(prog, contract, lib=None, contracts=None, config=None, loop
   report = dict(target=contract.target, cases={}, dropped=[], used_contracts=set(), inlined=set(), externals=set(),
                 lines=(fn.lineno, fn.end_lineno))
   for case in contract.cases:
+    if only_case is not None and case.name != only_case:
+      continue
     cfg = dict(config or {})
     cfg['target'] = contract.target
     ex = Executor(prog, lib, contracts if contracts is not None else REGISTRY, cfg)
@@ -517,6 +529,7 @@ def body_obligations(prog, contract, lib=None, contracts=None, config=None, loop
     report['inlined'] |= ex.inlined
     report['externals'] |= ex.externals_used
     seen_outcomes = set()
+    seen_const = set()
     for k, (q, oc) in enumerate(finished):
       a = Args(entry_env, q, old=entry_heap)
       tag = '%s[%s]#p%d' % (contract.target, case.name, k)
@@ -524,6 +537,13 @@ def body_obligations(prog, contract, lib=None, contracts=None, config=None, loop
       for kind, name, pc, goal, info in q.side:
         if kind == 'assume':
           continue
+        const_true = z3.is_true(goal) if z3.is_expr(goal) else goal is True
+        key = (case.name, kind, name)
+        if const_true:
+          # path-independent facts (call binds against the installed signature, write hits an owned array): one per site
+          if key in seen_const:
+            continue
+          seen_const.add(key)
         obls.append(Obligation('%s/%s@%s' % (tag, kind, name), kind, pc, goal, dict(info=info)))
       if oc[0] == 'return':
         seen_outcomes.add('return')
